@@ -74,7 +74,7 @@ def gen_table(rng, node_ids, pattern=None):
 def gen_case(rng):
     types = rng.choice([['tet'], ['tet'], ['hex'], ['tri'], ['tet', 'prism'], ['quad', 'tet']])
     mesh = cm.gen_mesh(rng, types=types, features={'groups': 'none', 'sections': 'none',
-                                                   'temp': 'none'})
+                                                   'temp': 'none', 'materials': 'none'})
     sol = rng.choice(['STATIC', 'STATIC', 'HEAT', None])
     cons = {}
     pats = {}
@@ -212,7 +212,7 @@ def gen_group_case(rng, base_msh_lines, node_ids, cid):
     through group names, once listed per member"""
     ngroups = []
     for j in range(rng.randint(1, 3)):
-        name = rng.choice(['NG', 'fix_', 'Load', 'n']) + str(j + 1)
+        name = rng.choice(['NG', 'fix_', 'Load', 'n', 'N', 'ng', 'NG1', 'A', 'AB', 'ab']) + str(j + 1)
         ngroups.append([name, rng.sample(node_ids, rng.randint(1, min(4, len(node_ids))))])
     msh = [l for l in base_msh_lines if l != '!END']
     for name, ids in ngroups:
